@@ -520,3 +520,12 @@ func instrIndex(in ssa.Instruction) int {
 	}
 	return -1
 }
+
+// guardIsLoopCond: the guard is the continuation test of a natural loop (range index < len, iterator ok, for-cond).
+func guardIsLoopCond(fn *ssa.Function) func(guard) bool {
+	headers := map[*ssa.BasicBlock]bool{}
+	for _, li := range naturalLoops(fn) {
+		headers[li.header] = true
+	}
+	return func(g guard) bool { return g.at != nil && headers[g.at.Block()] }
+}
